@@ -764,6 +764,10 @@ func (nfs *Nfs) NFSPROC3_READDIR(args nfstypes.READDIR3args) nfstypes.READDIR3re
 		errRet(op, &reply.Status, nfstypes.NFS3ERR_INVAL)
 		return reply
 	}
+	if uint64(args.Cookie)%dir.DIRENTSZ != 0 {
+		errRet(op, &reply.Status, nfstypes.NFS3ERR_BAD_COOKIE)
+		return reply
+	}
 	dirlist := Readdir3(ip, op, args.Cookie, args.Count)
 	reply.Resok.Reply = dirlist
 	commitReply(op, &reply.Status)
@@ -782,6 +786,10 @@ func (nfs *Nfs) NFSPROC3_READDIRPLUS(args nfstypes.READDIRPLUS3args) nfstypes.RE
 	}
 	if ip.Kind != nfstypes.NF3DIR {
 		errRet(op, &reply.Status, nfstypes.NFS3ERR_INVAL)
+		return reply
+	}
+	if uint64(args.Cookie)%dir.DIRENTSZ != 0 {
+		errRet(op, &reply.Status, nfstypes.NFS3ERR_BAD_COOKIE)
 		return reply
 	}
 	dirlist := Ls3(ip, op, args.Cookie, args.Dircount, args.Maxcount)
